@@ -157,6 +157,8 @@ class _Ctx:
         self.gates = {a: [] for a in ARGS}        # in flight: (id, future, start tick)
         self.execs = []                           # every execution: dict(arg,id,start,end,outcome,bg)
         self.cur = {"outcome": "ok", "dur": 0}
+        self.callers = set()                      # the tasks in which the harness makes its calls
+        self.finished = []                        # the executions in the order in which they completed
 
 
 _CTX: _Ctx | None = None
@@ -165,14 +167,14 @@ _CTX: _Ctx | None = None
 async def wrapped_function(arg):
     """THE decorated function (one module-level object for all cases: cashews caches key templates and signatures per
     function object).  Consults the script: the outcome of a foreground execution is the current call's, a background
-    execution (a task other than the harness's own, only when background=True) parks until its `done` operation."""
+    execution (a task other than the harness's callers', only when background=True) parks until its `done` operation."""
     ctx = _CTX
     n = ctx.nexec[arg]
     ctx.nexec[arg] += 1
     rec = {"arg": arg, "id": n, "start": CLOCK.ticks(), "end": None, "outcome": None, "bg": False, "dur": 0}
     ctx.execs.append(rec)
     out = ctx.cur["outcome"]
-    if asyncio.current_task() is not ctx.main_task and ctx.cfg["bg"] and ctx.cfg["decor"] in ("early", "hit"):
+    if asyncio.current_task() not in ctx.callers and ctx.cfg["bg"] and ctx.cfg["decor"] in ("early", "hit"):
         rec["bg"] = True
         fut = ctx.loop.create_future()
         ctx.gates[arg].append((n, fut, rec["start"]))
@@ -185,6 +187,7 @@ async def wrapped_function(arg):
             raise HarnessError(f"a body of {rec['dur']} ticks started at {rec['start']} ended at {CLOCK.ticks()}")
     rec["end"] = CLOCK.ticks()
     rec["outcome"] = out
+    ctx.finished.append(rec)
     if out == "ok":
         return (rec["end"], n)
     if out in RETURNS:
@@ -205,12 +208,65 @@ async def _quiesce():
     raise HarnessError("loop never became quiescent")
 
 
+STEP_BUDGET = 2_000_000      # iterations of the virtual loop per case (a case of 30 ops needs a few thousand)
+
+
+def _guard(loop):
+    """a wait that cannot end must not hang the check: every iteration of the virtual loop is counted against a budget, and
+    an iteration that would block for ever (nothing ready, no timer pending: whoever is awaited will never be woken) raises"""
+    inner = loop._run_once
+    state = {"steps": 0}
+
+    def run_once():
+        state["steps"] += 1
+        if state["steps"] > STEP_BUDGET:
+            raise HarnessError(f"virtual loop: more than {STEP_BUDGET} iterations in one case (a wait that never ends?)")
+        if not loop._ready and not loop._scheduled and not loop._stopping:
+            raise HarnessError("virtual loop: nothing ready and no timer pending — the harness is waiting for something that "
+                               "can never happen (deadlock)")
+        inner()
+    loop._run_once = run_once
+
+
+def _shown(outcome, arg, ran):
+    """canonical form of what a call returned / raised; `ran`: the executions that completed while it was answered"""
+    kind = outcome[0]
+    if kind == "val":
+        fresh = any(e["arg"] == arg and e["id"] == outcome[2] and e["end"] == outcome[1] for e in ran)
+        return ("fresh" if fresh else "stored") + f":{outcome[1]}:{outcome[2]}"
+    if kind in ("raised", "storeerr"):
+        return kind + ":" + outcome[1]
+    return "other:" + outcome[1]
+
+
+async def _caller(g, arg):
+    """one call of the decorated function, run as a task of its own: the answer, canonicalised"""
+    try:
+        r = await g(arg)
+        if isinstance(r, tuple) and len(r) in (2, 3) and all(isinstance(x, int) for x in r[:2]):
+            return ("val", r[0], r[1])
+        return ("other", repr(r))
+    except StoreListed:
+        return ("storeerr", "lis")
+    except StoreUnlisted:
+        return ("storeerr", "unl")
+    except Listed:
+        return ("raised", "lis")
+    except Unlisted:
+        return ("raised", "unl")
+    except asyncio.CancelledError:
+        raise
+    except Exception as exc:  # noqa: BLE001
+        return ("other", type(exc).__name__)
+
+
 async def _execute(cfg, ops):
     from cashews import Cache
 
     loop = asyncio.get_running_loop()
     loop.SPIN = 10 ** 12                      # no spontaneous ticks: this coroutine never blocks
     loop.set_exception_handler(lambda l, ctx: None)   # a failing background refresh is never awaited by cashews
+    _guard(loop)
     cache = Cache()
     if cfg.get("mode", "default") == "script":
         cache.setup(STORES[cfg["store"]], middlewares=(set_guard,))
@@ -224,46 +280,52 @@ async def _execute(cfg, ops):
     f = wrapped_function
     g = wrap(cache, cfg, f)
     events = []
-    for line in ops:
+    parked = {a: [] for a in ARGS}            # callers waiting for a recalculation of their key: (op index, task)
+    for opi, line in enumerate(ops):
         w = line.split()
         t = CLOCK.ticks()
         if w[0] == "call":
             arg, o, dur = parse_call(line)
             cur["outcome"] = o
             cur["dur"] = dur
-            done_before = sum(1 for e in execs if e["end"] is not None)
+            done_before = len(ctx.finished)
             started_before = len(execs)
             infl_before = [(i, s) for i, _, s in gates[arg]]
-            try:
-                r = await g(arg)
-                if isinstance(r, tuple) and len(r) in (2, 3) and all(isinstance(x, int) for x in r[:2]):
-                    res = ("val", r[0], r[1])
-                else:
-                    res = ("other", repr(r))
-            except StoreListed:
-                res = ("storeerr", "lis")
-            except StoreUnlisted:
-                res = ("storeerr", "unl")
-            except Listed:
-                res = ("raised", "lis")
-            except Unlisted:
-                res = ("raised", "unl")
-            except Exception as exc:  # noqa: BLE001
-                res = ("other", type(exc).__name__)
-            ran = [e for e in execs if e["end"] is not None][done_before:]
+            task = loop.create_task(_caller(g, arg))
+            ctx.callers.add(task)
             await _quiesce()
-            late = [e for e in execs if e["end"] is not None][done_before + len(ran):]
+            if not task.done():
+                body = [e for e in execs[started_before:] if not e["bg"] and e["end"] is None]
+                if body:
+                    # the function body of this call is asleep on the virtual loop: let exactly its duration pass
+                    await asyncio.wait({task}, timeout=(body[0]["dur"] + 1) * vtime.TICK)
+                    if not task.done():
+                        raise HarnessError(f"`{line}` at {t}: the call did not return when its function body of "
+                                           f"{body[0]['dur']} ticks had finished")
+                    await _quiesce()
+            if not task.done():
+                # the call executes nothing and cannot return: it waits for something this history has yet to do - the
+                # completion of a recalculation in flight for its key (early after D44: a cold miss joins it)
+                if execs[started_before:] or not gates[arg]:
+                    raise HarnessError(f"`{line}` at {t}: the call neither returned nor is there a recalculation in flight for "
+                                       f"`{arg}` it could be waiting for (executions started by it: {len(execs[started_before:])})")
+                if CLOCK.ticks() != t:
+                    raise HarnessError("virtual time moved while a call was being parked")
+                parked[arg].append((opi, task))
+                rid = gates[arg][0][0]
+                events.append({"op": line, "kind": "call", "arg": arg, "t": t, "t_end": t, "dur": dur, "outcome": o,
+                               "res": f"joined:{rid}", "x": 0, "b": 0, "n": len(gates[arg]), "infl_before": infl_before,
+                               "started_id": None, "ran": [], "late": [], "joined": rid,
+                               "impl": f"joined:{rid} x=0 b=0 n={len(gates[arg])} t={t}"})
+                continue
+            res = task.result()
+            ran = ctx.finished[done_before:]
+            late = []
             t_end = CLOCK.ticks()
             if t_end != t + sum(e["dur"] for e in ran):
                 raise HarnessError(f"virtual time moved during a call by something else than its function body: {t} -> {t_end}")
             new = execs[started_before:]
-            if res[0] == "val":
-                fresh = any(e["arg"] == arg and e["id"] == res[2] and e["end"] == res[1] for e in ran)
-                shown = ("fresh" if fresh else "stored") + f":{res[1]}:{res[2]}"
-            elif res[0] in ("raised", "storeerr"):
-                shown = res[0] + ":" + res[1]
-            else:
-                shown = "other:" + res[1]
+            shown = _shown(res, arg, ran)
             x = len(ran)
             b = sum(1 for e in new if e["bg"] and e["end"] is None)
             events.append({"op": line, "kind": "call", "arg": arg, "t": t, "t_end": t_end, "dur": dur, "outcome": o,
@@ -281,16 +343,42 @@ async def _execute(cfg, ops):
             events.append({"op": line, "kind": "adv", "t": t, "dt": int(w[1]), "impl": "ok"})
         elif w[0] == "done":
             arg, i, o = w[1], int(w[2]), w[3]
+            wtag = " w=-" if cfg["decor"] == "early" else ""
             if i < len(gates[arg]):
                 n, fut, start = gates[arg].pop(i)
+                done_before = len(ctx.finished)
                 fut.set_result(o)
                 await _quiesce()
+                ran = ctx.finished[done_before:]
                 shown = "stored" if o == "ok" else ("skipped" if o == "rej" else "failed")
+                # the callers parked on this recalculation are answered now
+                waiters = []
+                still = []
+                for wop, wtask in parked[arg]:
+                    if wtask.done():
+                        waiters.append((wop, _shown(wtask.result(), arg, ran)))
+                    else:
+                        still.append((wop, wtask))
+                parked[arg] = still
+                if still and not gates[arg]:
+                    raise HarnessError(f"`{line}`: {len(still)} caller(s) of `{arg}` still parked although no recalculation of it is in flight")
+                if waiters:
+                    kinds = sorted({r for _, r in waiters})
+                    wtag = " w=" + (kinds[0] if len(kinds) == 1 else "mixed(" + ",".join(kinds) + ")")
                 events.append({"op": line, "kind": "done", "arg": arg, "t": t, "id": n, "start": start, "outcome": o,
-                               "res": shown, "n": len(gates[arg]), "impl": f"{shown} n={len(gates[arg])} t={CLOCK.ticks()}"})
+                               "res": shown, "n": len(gates[arg]), "waiters": waiters,
+                               "impl": f"{shown} n={len(gates[arg])} t={CLOCK.ticks()}{wtag}"})
             else:
                 events.append({"op": line, "kind": "done", "arg": arg, "t": t, "id": None, "outcome": o, "res": "noop",
-                               "n": len(gates[arg]), "impl": f"noop n={len(gates[arg])} t={CLOCK.ticks()}"})
+                               "n": len(gates[arg]), "waiters": [], "impl": f"noop n={len(gates[arg])} t={CLOCK.ticks()}{wtag}"})
+        elif w[0] in ("set", "del") and len(w) == 2:
+            # capacity stage (harness/overlap14.py): unrelated keys written / deleted straight through the cache
+            if w[0] == "set":
+                await cache.set("filler:" + w[1], 1)
+            else:
+                await cache.delete("filler:" + w[1])
+            await _quiesce()
+            events.append({"op": line, "kind": "raw", "t": t, "impl": "ok"})
         else:
             raise HarnessError(f"bad op {line!r}")
     # drain what is still in flight (not part of the history) so that the loop closes cleanly
@@ -299,6 +387,11 @@ async def _execute(cfg, ops):
             if not fut.done():
                 fut.set_result("unl")
     await _quiesce()
+    for arg in ARGS:
+        for wop, wtask in parked[arg]:
+            if not wtask.done():
+                raise HarnessError(f"op {wop} `{ops[wop]}`: the parked caller did not return when everything in flight was completed")
+            wtask.result()
     await cache.close()
     return events
 
@@ -367,6 +460,9 @@ def model_view(ev, ans: str) -> str:
     a = ans[len("model="):]
     if ev["kind"] == "adv":
         return a.split(" ")[0]
+    if ev["kind"] == "done" and not ev.get("waiters") and " w=" in a:
+        # what callers parked on that recalculation would be handed: comparable only when there are any
+        a = a[:a.index(" w=")] + " w=-"
     return a
 
 
@@ -402,11 +498,23 @@ def oracle(cfg, events):
         problems.append((i, sig, text))
 
     for i, ev in enumerate(events):
-        if ev["kind"] == "adv":
+        if ev["kind"] in ("adv", "raw"):
             continue
         arg = ev["arg"]
         t = ev["t"]
         if ev["kind"] == "done":
+            for wop, wres in ev.get("waiters", []):
+                # callers that found nothing stored and waited for this recalculation (early, D44) are answered now
+                seen.add("joined_caller_answered_" + ("fresh" if wres.startswith("fresh") else "exception" if wres.split(":")[0] in ("raised", "storeerr") else "other"))
+                wk = wres.split(":")[0]
+                if wk in ("fresh", "stored"):
+                    wstamp = int(wres.split(":")[1])
+                    if not (0 <= t - wstamp <= ttl):
+                        bad(i, "early-older-than-ttl", f"the caller parked at op {wop} was handed, at {t}, a result stored at {wstamp} (> ttl={ttl} ago)")
+                elif wk == "other":
+                    bad(i, "unexpected-result", f"the caller parked at op {wop} returned/raised something outside the alphabet: {wres}")
+            if len(ev.get("waiters", [])) > 1:
+                seen.add("several_callers_joined_one_recalculation")
             if ev["res"] != "noop" and ev["outcome"] in STORE_FAILS:
                 seen.add("bg_refresh_store_step_failed")
             if ev["res"] == "skipped":
@@ -520,6 +628,10 @@ def oracle(cfg, events):
                 seen.add("refresh_started")
             if ev["infl_before"] and b == 0 and kind == "stored":
                 seen.add("served_while_refresh_in_flight")
+                if any(t >= s0 + inner for _, s0 in ev["infl_before"]) and age > inner:
+                    seen.add("stale_hit_while_recalculation_outlived_its_lock_starts_nothing")
+            if kind == "joined":
+                seen.add("cold_miss_joined_recalculation_in_flight")
             if ev["n"] > 1:
                 seen.add("two_refreshes_in_flight_untimely")
         elif d == "soft":
@@ -798,6 +910,14 @@ ENUM_DUR = [
      ["call a ok 2", "call a lis 2", "call a sL 2", "call a rej 2", "call a tU 2", "adv 3", "adv 11"]),
     ({"decor": "fail", "ttl": 16, "inner": 0, "hits": 0, "upd": 0, "bg": 0, "store": "plain", "mode": "script"},
      ["call a ok 2", "call a lis 2", "call a cL 2", "call a rej 2", "call a sU 2", "adv 14", "adv 1"]),
+]
+
+
+# one recalculation of a key at a time (D44): a background refresh that outlives its lock key (adv 5 after its start) and the
+# stored result (adv 12): stale hits meanwhile start nothing, cold misses are parked on it and answered at its `done`
+ENUM_JOIN = [
+    ({"decor": "early", "ttl": 16, "inner": 4, "hits": 0, "upd": 0, "bg": 1, "store": "plain"},
+     ["call a ok", "adv 5", "adv 12", "done a 0 ok", "done a 0 lis"]),
 ]
 
 
